@@ -156,7 +156,7 @@ func VerifDumpTypes(p *Program) []string {
 // VerifVMNesting reports how deeply the running code is nested: the number of
 // try frames that belong to script try statements (as opposed to the marker
 // frames pushed at Go boundaries) and the number of sentinel call frames
-// (pc == -2) that mark a Go -> script call made while a script was running.
+// (pc == -2) above the entry frame, which mark a Go -> script call made while a script was running.
 func VerifVMNesting(r *Runtime) (scriptTry, goToScript int) {
 	vm := r.vm
 	for i := range vm.tryStack {
@@ -164,7 +164,7 @@ func VerifVMNesting(r *Runtime) (scriptTry, goToScript int) {
 			scriptTry++
 		}
 	}
-	for i := range vm.callStack {
+	for i := 1; i < len(vm.callStack); i++ { // frame 0 is the entry from the host
 		if vm.callStack[i].prg == nil && vm.callStack[i].pc == -2 {
 			goToScript++
 		}
